@@ -134,8 +134,8 @@ def _(socket, jobs):
     ensures(forall(int, lambda i: implies(0 <= i and i < len(res), typed(res[i], tuple[DatasetId, bytes])[0] in store
                                           and same(store[typed(res[i], tuple[DatasetId, bytes])[0]], typed(res[i], tuple[DatasetId, bytes])[1]))),
             tag="every-uploaded-result-is-stored-as-uploaded", top=True)
-    invariant(0, forall(int, lambda i: implies(0 <= i and i < loop0_index, typed(res[i], tuple[DatasetId, bytes])[0] in store
-                                               and same(store[typed(res[i], tuple[DatasetId, bytes])[0]], typed(res[i], tuple[DatasetId, bytes])[1]))))
+    invariant(0, forall(int, lambda i: implies(0 <= i and i < loop0_index, typed(res[i], tuple[DatasetId, bytes])[0] in store)))
+    invariant(0, forall(int, lambda i: implies(0 <= i and i < loop0_index, same(store[typed(res[i], tuple[DatasetId, bytes])[0]], typed(res[i], tuple[DatasetId, bytes])[1]))))
     invariant(0, rep.job_id in jobs.jobs)
     invariant(0, forall(str, lambda k: (k in jobs.jobs) == old(k in jobs.jobs) and implies(k in jobs.jobs, same(jobs.jobs[k], old(jobs.jobs[k])) and same(jobs.jobs[k].results, old(jobs.jobs[k].results)))))
     invariant(0, forall(str, lambda k: implies(k in jobs.jobs, key_of(jobs.jobs[k], "jobs") == k and same(owner_of(jobs.jobs[k].results, "results"), jobs.jobs[k]))))
